@@ -34,6 +34,7 @@ type termCtx struct {
 	names map[types.Object]string // parameters of a helper -> "x","y"
 	depth int
 	bad   string
+	expand bool // see through module functions that are a single `return <expr>`
 }
 
 var commutative = map[string]bool{"add": true, "mul": true, "eq": true, "and": true, "or": true, "Equal": true, "val.Equals": true, "math.Max": true, "math.Min": true, "absdiff": true}
@@ -104,6 +105,15 @@ func (t *termCtx) tr(e ast.Expr) string {
 		}
 		base := t.tr(x.X)
 		return base + "." + x.Sel.Name
+	case *ast.SliceExpr:
+		lo, hi := "", ""
+		if x.Low != nil {
+			lo = t.tr(x.Low)
+		}
+		if x.High != nil {
+			hi = t.tr(x.High)
+		}
+		return "slice(" + t.tr(x.X) + "," + lo + "," + hi + ")"
 	case *ast.UnaryExpr:
 		switch x.Op {
 		case token.NOT:
@@ -200,6 +210,36 @@ func (t *termCtx) tr(e ast.Expr) string {
 		}
 		if nm == "" {
 			nm = "dyn:" + t.tr(x.Fun)
+		}
+		// a module function that is a single `return <expr>` is seen through (runeCount, FmtFloat, ...)
+		if fo, ok := c.calleeObj(x).(*types.Func); ok && t.expand && fo.Pkg() != nil && isMod(fo.Pkg().Path()) && t.depth < 6 {
+			if fd := c.declOf(fo); fd != nil && fd.Body != nil && len(fd.Body.List) == 1 {
+				if r, ok := fd.Body.List[0].(*ast.ReturnStmt); ok && len(r.Results) == 1 {
+					sub := &termCtx{c: c, defs: map[types.Object]ast.Expr{}, names: map[types.Object]string{}, depth: t.depth + 1, expand: true}
+					k, okArgs := 0, true
+					if fd.Recv != nil && len(fd.Recv.List) == 1 && len(fd.Recv.List[0].Names) == 1 {
+						if sel, ok := unparen(x.Fun).(*ast.SelectorExpr); ok {
+							sub.names[c.objOf(fd.Recv.List[0].Names[0])] = t.tr(sel.X)
+						}
+					}
+					for _, fl := range fd.Type.Params.List {
+						for _, n := range fl.Names {
+							if k < len(as) {
+								sub.names[c.objOf(n)] = as[k]
+							} else {
+								okArgs = false
+							}
+							k++
+						}
+						if len(fl.Names) == 0 {
+							k++
+						}
+					}
+					if okArgs && k == len(as) {
+						return sub.tr(r.Results[0])
+					}
+				}
+			}
 		}
 		return mk(nm, as...)
 	}
@@ -601,4 +641,53 @@ func (c *Ctx) assertedTerms(fn ast.Node, body ast.Node) (nodes []ast.Node, terms
 		terms = append(terms, t.tr(a.cond))
 	}
 	return
+}
+
+// splitTerm parses the outermost operator and arguments of a term: "and(a,b(c))" -> "and", ["a","b(c)"].
+func splitTerm(s string) (string, []string) {
+	i := strings.IndexByte(s, '(')
+	if i < 0 || !strings.HasSuffix(s, ")") {
+		return s, nil
+	}
+	op, body := s[:i], s[i+1:len(s)-1]
+	var args []string
+	d, start := 0, 0
+	for j, r := range body {
+		switch r {
+		case '(':
+			d++
+		case ')':
+			d--
+		case ',':
+			if d == 0 {
+				args = append(args, body[start:j])
+				start = j + 1
+			}
+		}
+	}
+	args = append(args, body[start:])
+	return op, args
+}
+
+// conjuncts flattens and(...) terms.
+func conjuncts(s string) []string {
+	op, as := splitTerm(s)
+	if op != "and" {
+		return []string{s}
+	}
+	var out []string
+	for _, a := range as {
+		out = append(out, conjuncts(a)...)
+	}
+	return out
+}
+
+// pathTerms gives the conjuncts assumed on a path (negated conditions by De Morgan only at the top level).
+func (t *termCtx) pathTerms(p retPath) []string {
+	var out []string
+	for _, pc := range p.conds {
+		ct := t.condTerm(pc)
+		out = append(out, conjuncts(ct)...)
+	}
+	return out
 }
